@@ -16,6 +16,7 @@ from mujoco_warp._src.collision_primitive_core import sphere_capsule
 from mujoco_warp._src.collision_primitive_core import sphere_sphere
 from mujoco_warp._src.math import closest_segment_point
 from mujoco_warp._src.math import make_frame
+from mujoco_warp._src.math import normalize_with_norm
 from mujoco_warp._src.types import vec5
 
 wp.set_module_options({"enable_backward": False})
@@ -230,3 +231,10 @@ def k_plane_capsule(
   pos_out[0] = pos[0]
   pos_out[1] = pos[1]
   frame_out[0] = frame
+
+
+@wp.kernel
+def k_normalize_with_norm(x: wp.vec3, n_out: wp.array[wp.vec3], norm_out: wp.array[float]):
+  n, norm = normalize_with_norm(x)
+  n_out[0] = n
+  norm_out[0] = norm
